@@ -178,7 +178,7 @@ func (v *VFS) end(o *FSOp, err error) {
 	obs := v.OnOp
 	v.mu.Unlock()
 	if obs != nil {
-		obs(o)
+		NoYield(func() { obs(o) })
 	}
 }
 
